@@ -336,7 +336,10 @@ def check_carried_bound(ck, prog, config, clause, units=('src/zck.c',)):
                     if lv is not None and rv is not None:
                         cons += cons_of(op, lv, rv)
                 # violated if  V - P >= 1  is possible under the enclosing conditions
-                w = fm_feasible(cons + [Lin({v: 1}) - P - Lin(None, 1)] + [Lin({k: 1}) for k in set(P.t) | set([v])])
+                nn = nonneg_locals(fn)
+                allv = set(k for c_ in cons for k in c_.t) | set(L.t)
+                w = fm_feasible(cons + [Lin({v: 1}) - P - Lin(None, 1)] +
+                                [Lin({k: 1}) for k in (set(P.t) | set([v]) | set(k for k in allv if k in nn))])
                 ok = w is None
                 ck.ob(clause, 'R4.carried-bound', fn.name, 'carried:%s@%s' % (v, show(la)[:30]), ok,
                       '%s(.., %s): the enclosing conditions imply %s <= %r' % (callee_name(c), show(la), v, P) if ok else
